@@ -213,9 +213,10 @@ def check(ctx):
         with sect(ctx, q):          # one unreadable method must not hide the sinks of the others
             scan_method(q, f)
     ctx.ok("taster/no-policy-reset", base + "_Unjellier", f"{len(meths)} methods scanned")
-    ctx.floor("resolver sinks", n_res, 4)
-    ctx.floor("instantiation sinks", n_inst, 4)
-    ctx.floor("getattr sites", n_getattr, 3)
+    with sect(ctx, "site floors"):
+        ctx.floor("resolver sinks", n_res, 4)
+        ctx.floor("instantiation sinks", n_inst, 4)
+        ctx.floor("getattr sites", n_getattr, 3)
 
     # ---- R4 unjelly(): type policy first, one atom for everything
     with sect(ctx, 'R4 unjelly(): type policy first, one atom for everything'):
